@@ -20,7 +20,7 @@ def findings_table():
         what = f["what"].replace("|", "\\|")
         if len(what) > 230:
             what = what[:227] + "..."
-        rows.append("| %s | %s | %s | %s | %s |" % (fid, f["status"] + ((" " + f.get("commit", "")) if f["status"] == "fixed" else ""), props, f["rule"], what))
+        rows.append("| %s | %s | %s | %s | %s |" % (fid, f["status"] + ((" " + f.get("commit", "")) if f["status"] == "fixed" else ""), props, f.get("rule") or "- (no static rule)", what))
     if fam.get("D9"):
         rows.append("| D9/* (%d keys) | open | C10,C16 | C10.R1 | untyped request parameters reach kind-sensitive operations (len, `in {set}`, .get, json.loads, subscript store) in both front ends: 500 InternalError instead of a typed validation error; one root cause, one key per handler x sink |" % len(fam["D9"]))
     return "\n".join(rows)
@@ -90,10 +90,14 @@ def benign_table():
     m = json.load(open(p))["results"]
     rows = []
     n = {"rb1": [0, 0], "rb2": [0, 0]}
+    stale = []
     for k in sorted(m):
         v = m[k]
         rd = "rb2" if "rb2" in k else "rb1"
         alarm = bool(v.get("violation") or v.get("analysis_error"))
+        if v.get("error"):
+            stale.append(k)
+            continue
         n[rd][0] += 1
         n[rd][1] += alarm
         if alarm:
@@ -109,6 +113,7 @@ def benign_table():
     head = ["**Round 1** (%d changes; the corpus the normal forms of E14 were developed on): %d silent in all twenty checks, %d false alarms. "
             "**Round 2** (%d changes; written after E14/E15/RV existed, first measured blind at 29 silent / 18 alarms, then used to add normal forms): %d silent, %d false alarms." % (
                 n["rb1"][0], n["rb1"][0] - n["rb1"][1], n["rb1"][1], n["rb2"][0], n["rb2"][0] - n["rb2"][1], n["rb2"][1]), "",
+            "%d of the 145 changes no longer apply to HEAD because a later `fix:` commit rewrote the lines they touch (%s); they were silent or known alarms when last measured (HEAD 72f0a84: 122 silent / 23 alarms of 145) and are not counted above." % (len(stale), ", ".join(stale)), "",
             "| behaviour-preserving change that still raises an alarm | what it does | properties that alarm | rules |", "|---|---|---|---|"]
     return "\n".join(head + rows)
 
